@@ -70,12 +70,125 @@ def zbool(v):
     return z3.BoolVal(True)        # objects, classes, functions (A3)
 
 
+_BVMEMO = {}
+_BVKEEP = []
+
+
+def contains_bv(t):
+    """does the term mention a bit-vector operation (memoised by term id; terms are hash-consed)"""
+    i = t.get_id()
+    r = _BVMEMO.get(i)
+    if r is not None:
+        return r
+    if z3.is_bv(t) or (z3.is_app(t) and t.decl().kind() == z3.Z3_OP_BV2INT):
+        r = True
+    elif z3.is_quantifier(t):
+        r = contains_bv(t.body())
+    elif z3.is_app(t):
+        r = any(contains_bv(c) for c in t.children())
+    else:
+        r = False
+    if len(_BVMEMO) > 200000:
+        _BVMEMO.clear()
+        _BVKEEP.clear()
+    _BVMEMO[i] = r
+    _BVKEEP.append(t)        # keep the term alive: ids of collected terms are recycled
+    return r
+
+
+def ssimplify(t):
+    """z3.simplify, except on terms that carry bit-vector operations"""
+    return t if contains_bv(t) else z3.simplify(t)
+
+
+def mkbv(z):
+    """SInt for the unsigned value of the BV term z"""
+    return SInt(z3.BV2Int(z, False), z)
+
+
+def _resize(z, W):
+    w = z.size()
+    if w == W:
+        return z
+    return z3.ZeroExt(W - w, z) if w < W else z3.Extract(W - 1, 0, z)
+
+
+def _ispow2(m):
+    return m > 0 and (m & (m - 1)) == 0
+
+
+def as_bv(t):
+    """if the Int term t is bit-vector shaped (bv2int, or div/mod by 2^k / ite of such), the BV term it is the
+    unsigned value of; else None.  Keeps CRC-style code in the BV theory instead of mixing Int and BV."""
+    if not z3.is_app(t):
+        return None
+    k = t.decl().kind()
+    if k == z3.Z3_OP_BV2INT:
+        return t.arg(0)
+    if k in (z3.Z3_OP_MOD, z3.Z3_OP_IDIV) and z3.is_int_value(t.arg(1)) and _ispow2(t.arg(1).as_long()):
+        z = as_bv(t.arg(0))
+        if z is None:
+            return None
+        sh = t.arg(1).as_long().bit_length() - 1
+        w = z.size()
+        if k == z3.Z3_OP_IDIV:
+            return z3.LShR(z, sh) if sh < w else z3.BitVecVal(0, w)
+        if sh >= w:
+            return z
+        return z3.ZeroExt(w - sh, z3.Extract(sh - 1, 0, z)) if sh > 0 else z3.BitVecVal(0, w)
+    if k == z3.Z3_OP_ITE:
+        a, b = as_bv(t.arg(1)), as_bv(t.arg(2))
+        if a is None and z3.is_int_value(t.arg(1)) and b is not None and 0 <= t.arg(1).as_long() < 2 ** b.size():
+            a = z3.BitVecVal(t.arg(1).as_long(), b.size())
+        if b is None and z3.is_int_value(t.arg(2)) and a is not None and 0 <= t.arg(2).as_long() < 2 ** a.size():
+            b = z3.BitVecVal(t.arg(2).as_long(), a.size())
+        if a is not None and b is not None:
+            if a.size() < b.size(): a = z3.ZeroExt(b.size() - a.size(), a)
+            if b.size() < a.size(): b = z3.ZeroExt(a.size() - b.size(), b)
+            return z3.If(t.arg(0), a, b)
+    return None
+
+
+def _bv_norm(t):
+    """normalise bit-vector shaped Int terms to bv2int(<bv term>); comparisons of such terms to BV comparisons"""
+    if z3.is_int(t):
+        if z3.is_app(t) and t.decl().kind() == z3.Z3_OP_BV2INT:
+            return t
+        z = as_bv(t)
+        if z is not None:
+            return z3.BV2Int(z3.simplify(z), False)
+        return t
+    if z3.is_bool(t) and z3.is_app(t) and t.decl().kind() in (z3.Z3_OP_EQ, z3.Z3_OP_DISTINCT) and t.num_args() == 2 and z3.is_int(t.arg(0)):
+        a, b = t.arg(0), t.arg(1)
+        za, zb = as_bv(a), as_bv(b)
+        if za is not None and zb is None and z3.is_int_value(b):
+            v = b.as_long()
+            r = (za == z3.BitVecVal(v, za.size())) if 0 <= v < 2 ** za.size() else z3.BoolVal(False)
+        elif zb is not None and za is None and z3.is_int_value(a):
+            v = a.as_long()
+            r = (zb == z3.BitVecVal(v, zb.size())) if 0 <= v < 2 ** zb.size() else z3.BoolVal(False)
+        elif za is not None and zb is not None:
+            if za.size() < zb.size(): za = z3.ZeroExt(zb.size() - za.size(), za)
+            if zb.size() < za.size(): zb = z3.ZeroExt(za.size() - zb.size(), zb)
+            r = za == zb
+        else:
+            return t
+        return r if t.decl().kind() == z3.Z3_OP_EQ else z3.Not(r)
+    return t
+
+
 def mk(t):
     """z3 term -> SInt/SBool or python constant when the term is a literal"""
     if isinstance(t, (int, bool)) or t is None:
         return t
     if isinstance(t, (SInt, SBool)):
         return t
+    if contains_bv(t):
+        # z3.simplify expands bv2int of xor/concat terms into sums of slices: keep BV-carrying terms as built
+        if z3.is_bool(t):
+            return SBool(t)
+        z = t.arg(0) if (z3.is_app(t) and t.decl().kind() == z3.Z3_OP_BV2INT) else None
+        return SInt(t, z)
     t = z3.simplify(t)
     if z3.is_int_value(t):
         return t.as_long()
@@ -103,11 +216,34 @@ def _bitop(op, a, b):
     if isinstance(a, (SBool, bool)) and isinstance(b, (SBool, bool)):
         x, y = zbool(a), zbool(b)
         return mk({'&': z3.And(x, y), '|': z3.Or(x, y), '^': z3.Xor(x, y)}[op])
+    if op == '|' and not (isinstance(a, SInt) and a.bv is not None) and not (isinstance(b, SInt) and b.bv is not None):
+        # (h * 2^k) | l  with 0 <= l < 2^k and h >= 0 is h * 2^k + l (disjoint bits): stays in linear arithmetic
+        st = cur()
+        for p_, q_ in ((a, b), (b, a)):
+            pz = ssimplify(zint(p_))
+            c = None
+            if z3.is_int_value(pz) and pz.as_long() >= 0:
+                v = pz.as_long()
+                c = (v & -v) if v else None
+            elif z3.is_app(pz) and pz.decl().kind() == z3.Z3_OP_MUL and pz.num_args() == 2 and z3.is_int_value(pz.arg(0)) and _ispow2(pz.arg(0).as_long()):
+                c = pz.arg(0).as_long()
+            if c and st is not None:
+                qz = zint(q_)
+                if st.provable(z3.And(qz >= 0, qz < c, pz >= 0)):
+                    return mk(pz + qz)
+    if op == '^':
+        # x ^ (2^k - 1) for 0 <= x < 2^k is (2^k - 1) - x: stays in linear arithmetic
+        for c, o in ((b, a), (a, b)):
+            if isinstance(c, int) and not isinstance(c, bool) and _pow2m1(c) and c > 0:
+                st = cur()
+                oz = zint(o)
+                if st is not None and st.provable(z3.And(oz >= 0, oz <= c)):
+                    return mk(c - oz)
     if op == '&':
         if cb and _pow2m1(b):
-            return mk(zint(a) % (b + 1))
+            return _arith('%', a, b + 1)
         if ca and _pow2m1(a):
-            return mk(zint(b) % (a + 1))
+            return _arith('%', b, a + 1)
         if cb and b > 0 and (b & (b - 1)) == 0:          # single bit
             return mk(((zint(a) / b) % 2) * b)
         if cb and b >= 0:
@@ -116,35 +252,53 @@ def _bitop(op, a, b):
                 return mk(((zint(a) / lo) % (b // lo + 1)) * lo)
     st = cur()
     x, y = zint(a), zint(b)
-    W = BVW
-    if st is not None:
-        # smallest width in which both operands provably fit (queries stay small: 16-bit registers, 8-bit bytes)
+
+    def known_width(v):
+        if isinstance(v, bool):
+            return 1
+        if isinstance(v, int):
+            return max(1, v.bit_length()) if v >= 0 else None
+        if isinstance(v, SInt) and v.bv is not None:
+            return v.bv.size()
+        return None
+    wa, wb = known_width(a), known_width(b)
+    W = None
+    if wa is not None and wb is not None:
+        W = max(wa, wb)
+        W = 8 if W <= 8 else 16 if W <= 16 else 32 if W <= 32 else 64
+    elif st is not None:
+        base = max(wa or 0, wb or 0)
+        unknown = [t for t, w in ((x, wa), (y, wb)) if w is None]
         for w in (8, 16, 32):
-            if st.provable(z3.And(x >= 0, x < 2 ** w, y >= 0, y < 2 ** w)):
+            if w < base:
+                continue
+            if all(st.provable(z3.And(t >= 0, t < 2 ** w)) for t in unknown):
                 W = w
                 break
-        else:
-            if op == '&':
-                # python & on a negative operand is two's complement with infinite sign extension: exact in W bits
-                # as soon as the other operand is within 0 .. 2^W-1 (int2bv reduces modulo 2^W)
-                for w in (16, 32):
-                    if st.provable(z3.And(x >= -(2 ** w), x < 2 ** w, y >= -(2 ** w), y < 2 ** w)) and \
-                            (st.provable(z3.And(x >= 0, x < 2 ** w)) or st.provable(z3.And(y >= 0, y < 2 ** w))):
-                        W = w
-                        break
-                else:
-                    raise Unsupported('& on operands not provably within %d bits' % BVW)
-            else:
-                raise Unsupported('bitwise %s on operands not provably within 0..2^%d' % (op, BVW))
-    bx, by = tobv(x, W), tobv(y, W)
+        if W is None and op == '&':
+            # python & on a negative operand is two's complement with infinite sign extension: exact in W bits
+            # as soon as the other operand is within 0 .. 2^W-1 (int2bv reduces modulo 2^W)
+            for w in (16, 32):
+                if st.provable(z3.And(x >= -(2 ** w), x < 2 ** w, y >= -(2 ** w), y < 2 ** w)) and \
+                        (st.provable(z3.And(x >= 0, x < 2 ** w)) or st.provable(z3.And(y >= 0, y < 2 ** w))):
+                    W = w
+                    break
+    if W is None:
+        raise Unsupported('bitwise %s on operands not provably within 0..2^%d' % (op, BVW))
+    def bvof(v, t):
+        if isinstance(v, SInt) and v.bv is not None:
+            return _resize(v.bv, W) if v.bv.size() <= W or True else None
+        return tobv(t, W)
+    bx, by = bvof(a, x), bvof(b, y)
     r = {'&': bx & by, '|': bx | by, '^': bx ^ by}[op]
+    return mkbv(r)
     return mk(z3.BV2Int(r, False))
 
 
 def tobv(t, W):
     """int2bv pushed to the leaves: int2bv is a ring homomorphism modulo 2^W, so +, -, * by constants,
     ite, bv2int and `mod 2^k` (k >= W) translate structurally; anything else becomes an int2bv leaf."""
-    t = z3.simplify(t)
+    t = ssimplify(t)
     if z3.is_int_value(t):
         return z3.BitVecVal(t.as_long() % (2 ** W), W)
     k = t.decl().kind() if z3.is_app(t) else None
@@ -176,14 +330,34 @@ def tobv(t, W):
         m = t.arg(1).as_long()
         if m > 0 and (m & (m - 1)) == 0 and m >= 2 ** W:
             return tobv(t.arg(0), W)
+        if m > 0 and (m & (m - 1)) == 0:
+            kk = m.bit_length() - 1          # x mod 2^kk keeps the low kk bits (true for negative x too: int2bv is modulo)
+            z = tobv(t.arg(0), W)
+            return z3.ZeroExt(W - kk, z3.Extract(kk - 1, 0, z))
+    if k == z3.Z3_OP_IDIV and z3.is_int_value(t.arg(1)) and _ispow2(t.arg(1).as_long()) and not (z3.is_app(t.arg(0)) and t.arg(0).decl().kind() == z3.Z3_OP_BV2INT):
+        # x div 2^k for 0 <= x < 2^W is a logical shift of int2bv(x)
+        st = cur()
+        inner = t.arg(0)
+        if st is not None:
+            for w2 in (W, 16, 32, 64):
+                if w2 >= W and st.provable(z3.And(inner >= 0, inner < 2 ** w2)):
+                    return _resize(z3.LShR(tobv(inner, w2), t.arg(1).as_long().bit_length() - 1), W)
+    if k == z3.Z3_OP_IDIV and z3.is_int_value(t.arg(1)) and z3.is_app(t.arg(0)) and t.arg(0).decl().kind() == z3.Z3_OP_BV2INT:
+        m = t.arg(1).as_long()
+        if m > 0 and (m & (m - 1)) == 0:
+            z = t.arg(0).arg(0)              # bv2int(z) is unsigned: floor division by 2^k is a logical shift
+            r = z3.LShR(z, m.bit_length() - 1)
+            w = z.size()
+            return r if w == W else (z3.ZeroExt(W - w, r) if w < W else z3.Extract(W - 1, 0, r))
     return z3.Int2BV(t, W)
 
 
 class SInt:
-    __slots__ = ('t',)
+    __slots__ = ('t', 'bv')
 
-    def __init__(self, t):
+    def __init__(self, t, bv=None):
         self.t = t
+        self.bv = bv        # when set: t == bv2int(bv) (unsigned), operators stay in the BV theory
 
     def __repr__(self):
         return 'SInt(%s)' % self.t
@@ -285,6 +459,13 @@ def _arith(op, a, b):
         return mk(x * y)
     if op in ('//', '%'):
         if isinstance(b, int) and not isinstance(b, bool) and b > 0:   # A2: positive constant divisor
+            if isinstance(a, SInt) and a.bv is not None and _ispow2(b):
+                sh, w = b.bit_length() - 1, a.bv.size()
+                if op == '//':
+                    return mkbv(z3.LShR(a.bv, sh)) if sh < w else 0
+                if sh >= w:
+                    return a
+                return mkbv(z3.ZeroExt(w - sh, z3.Extract(sh - 1, 0, a.bv))) if sh > 0 else 0
             return mk(x / y) if op == '//' else mk(x % y)
         # general: python floor semantics; divisor sign handled, zero divisor raises
         st = cur()
@@ -302,6 +483,10 @@ def _arith(op, a, b):
             if b < 0:
                 from .engine import Raised
                 raise Raised('ValueError')
+            if op == '>>' and isinstance(a, SInt) and a.bv is not None:
+                return mkbv(z3.LShR(a.bv, b)) if b < a.bv.size() else 0
+            if op == '<<' and isinstance(a, SInt) and a.bv is not None and a.bv.size() + b <= 64:
+                return mkbv(z3.ZeroExt(b, a.bv) << b)
             return mk(x * (2 ** b)) if op == '<<' else mk(x / (2 ** b))
         # symbolic shift amount: case split when it is provably within 0..16
         st = cur()
@@ -332,6 +517,20 @@ def _cmp(op, a, b):
     if isinstance(a, (SBool, bool)) and isinstance(b, (SBool, bool)) and op in ('==', '!='):
         x, y = zbool(a), zbool(b)
         return mk(x == y) if op == '==' else mk(x != y)
+    abv = a.bv if isinstance(a, SInt) else None
+    bbv = b.bv if isinstance(b, SInt) else None
+    if (abv is not None or bbv is not None) and op in ('==', '!=', '<', '<=', '>', '>='):
+        W = max(abv.size() if abv is not None else 0, bbv.size() if bbv is not None else 0)
+        def side(v, vbv):
+            if vbv is not None:
+                return _resize(vbv, W)
+            if isinstance(v, int) and not isinstance(v, bool) and 0 <= v < 2 ** W:
+                return z3.BitVecVal(v, W)
+            return None
+        p, q = side(a, abv), side(b, bbv)
+        if p is not None and q is not None:
+            r = {'==': p == q, '!=': p != q, '<': z3.ULT(p, q), '<=': z3.ULE(p, q), '>': z3.UGT(p, q), '>=': z3.UGE(p, q)}[op]
+            return SBool(r)
     x, y = zint(a), zint(b)
     return mk({'==': x == y, '!=': x != y, '<': x < y, '<=': x <= y, '>': x > y, '>=': x >= y}[op])
 
@@ -341,11 +540,12 @@ class Seq:
     """bytes or list value.  n: python int or z3 Int term.  at(k) -> element for index k
     (k python int or z3 term); elements are python values / SInt / SBool.
     kind 'list' values are mutable (append/extend/slice assignment update in place)."""
-    __slots__ = ('kind', 'n', '_at', 'items', 'elem')
+    __slots__ = ('kind', 'n', '_at', 'items', 'elem', 'parts')
 
     def __init__(self, kind, n, at=None, items=None, elem='int'):
         self.kind = kind
         self.elem = elem
+        self.parts = None          # for concatenations: the list of concatenated sequences (additive folds use it)
         if items is not None:
             self.items = list(items)
             self.n = len(self.items)
@@ -374,6 +574,7 @@ class Seq:
         if elem == 'int' and lo is not None:
             k = z3.Int(st.fresh_name('k'))
             st.assume(z3.ForAll([k], z3.And(arr[k] >= lo, arr[k] < hi)))
+            st.range_facts.append((arr, lo, hi))
         st.note_input_seq(name, s, arr)
         return s
 
@@ -413,12 +614,17 @@ class Seq:
     def copy(self):
         if self.items is not None:
             return Seq(self.kind, None, items=self.items, elem=self.elem)
-        return Seq(self.kind, self.n, at=self._at, elem=self.elem)
+        c = Seq(self.kind, self.n, at=self._at, elem=self.elem)
+        c.parts = self.parts
+        return c
 
     def as_kind(self, kind):
         c = self.copy()
         c.kind = kind
         return c
+
+    def is_bytes(self):
+        return self.kind in ('bytes', 'bytearray')
 
     def __repr__(self):
         if self.items is not None:
@@ -430,6 +636,35 @@ def _elem(t, elem):
     if elem == 'bool':
         return mk(t != 0)
     return mk(t)
+
+
+LAMK = z3.Int('lam!k')
+
+
+def seq_array(s):
+    """the content of a sequence as an array term (lambda over the element function): two sequences built the
+    same way give the same term, so uninterpreted folds over them (crc16, psum) are congruent"""
+    s = to_seq(s)
+    body = s.zat(LAMK) if s.items is None else zint(s.at(mk(LAMK))) if s.items else z3.IntVal(0)
+    if s.elem == 'bool':
+        body = z3.If(body, z3.IntVal(1), z3.IntVal(0)) if z3.is_bool(body) else body
+    body = ssimplify(body)
+    if z3.is_app(body) and body.decl().kind() == z3.Z3_OP_SELECT and body.arg(1).eq(LAMK) and not _mentions(body.arg(0), LAMK):
+        return body.arg(0)               # eta: (lambda k. a[k]) is a
+    return z3.Lambda([LAMK], body)
+
+
+def _mentions(t, v):
+    stack, seen = [t], set()
+    while stack:
+        x = stack.pop()
+        if x.get_id() in seen:
+            continue
+        seen.add(x.get_id())
+        if x.eq(v):
+            return True
+        stack.extend(x.children())
+    return False
 
 
 def to_seq(v):
@@ -468,7 +703,9 @@ def seq_concat(a, b):
     n = an + b.n
     if not isinstance(n, int):
         n = z3.simplify(n)
-    return Seq(kind, n, at=at, elem=elem)
+    r = Seq(kind, n, at=at, elem=elem)
+    r.parts = (a.parts or [a]) + (b.parts or [b])
+    return r
 
 
 def seq_slice(s, lo, hi):
